@@ -269,6 +269,19 @@ impl Node {
         for child in clone.children.borrow().iter() {
             child.parent.set(Some(Rc::downgrade(&clone)));
         }
+        // `data.clone()` copied the handle to the template contents, not the contents: give the
+        // clone a copy of its own, or the two templates share (and destroy) one fragment.
+        if let NodeData::Element {
+            ref template_contents,
+            ..
+        } = clone.data
+        {
+            let copy = template_contents
+                .borrow()
+                .as_ref()
+                .map(|contents| contents.clone_with_subtree());
+            *template_contents.borrow_mut() = copy;
+        }
         clone
     }
 }
